@@ -398,6 +398,42 @@ func propC01(c *Ctx) {
 		}
 	})
 	c.Note("direct oracle visited %d dates, %d of them with every secondary path", n, nSecondary)
+	// MaxInputLength limits the parser's INPUT; the output paths are promised without condition. Every output path of hand-picked and
+	// random dates of years 0000-9999 under limits BELOW the length of the text (and a negative one): a parse-side setting leaking
+	// into an output path (refusing, truncating or switching to the shorter basic form) shows only there.
+	func() {
+		low := [][3]int{{1, 1, 1}, {0, 1, 1}, {0, 12, 31}, {2024, 2, 29}, {1900, 2, 28}, {2000, 2, 29}, {999, 9, 9}, {9999, 12, 31}}
+		for i := 0; i < 8; i++ {
+			y, m := c.R.Intn(10000), 1+c.R.Intn(12)
+			low = append(low, [3]int{y, m, 1 + c.R.Intn(dim(y, m))})
+		}
+		for _, ymd := range low {
+			y, m, d := ymd[0], ymd[1], ymd[2]
+			dt := date.New(y, time.Month(m), d)
+			ext := digits(y, 4) + "-" + digits(m, 2) + "-" + digits(d, 2)
+			bas := digits(y, 4) + digits(m, 2) + digits(d, 2)
+			for _, ml := range []int{9, 8, 7, 5, 1, -1, 10} {
+				restore := setDateMax(ml)
+				var got []string
+				b0, e0 := date.DefaultFormatter(nil, dt, 0)
+				b1, e1 := date.DefaultFormatter([]byte("x:"), dt, date.FormatBasic)
+				mt, e2 := dt.MarshalText()
+				j, e3 := json.Marshal(dt)
+				x, e4 := xml.Marshal(xw{D: dt, A: dt})
+				got = append(got, string(b0), string(b1), string(mt), dt.String(), fmt.Sprintf("%s|%e|%b|%v", dt, dt, dt, &dt), string(j), string(x))
+				restore()
+				want := []string{ext, "x:" + bas, ext, ext, ext + "|" + ext + "|" + bas + "|" + ext, `"` + ext + `"`, `<w a="` + ext + `"><d>` + ext + `</d></w>`}
+				c.Check(fmt.Sprintf("lowlimit %s %d", bas, ml))
+				errs := []error{e0, e1, e2, nil, nil, e3, e4}
+				for i, what := range []string{"DefaultFormatter(0)", "DefaultFormatter(prefix, basic)", "MarshalText", "String", "Sprintf(%s|%e|%b|%v)", "json.Marshal", "xml.Marshal"} {
+					if got[i] != want[i] || errs[i] != nil {
+						c.Fail("C01.lowlimit", fmt.Sprintf("date.paths %d %d %d", y, m, d), "with MaxInputLength = %d: %s of %s = %q, %v; want %q (the limit is the parser's)", ml, what, ext, got[i], errs[i], want[i])
+						break
+					}
+				}
+			}
+		}
+	}()
 	// the property's first sentence names no setting: the canonical texts parse back under the input limit the
 	// package ships with (captured before anything changed it)
 	func() {
@@ -587,6 +623,16 @@ func propC07(c *Ctx) {
 			}
 		}
 	}
+	// the same conversions at far instants (years 10000, 12345, 0, -1, -5, +-999,999,999 …) in zones on both sides of UTC
+	for _, fy := range c07FarZoneYears {
+		base := (ordinal(fy[0], fy[1], fy[2])-1)*86400 - 62135596800 // Unix second of that day's midnight UTC
+		for _, off := range []int{-12 * 3600, -3600, -1, 0, 59, 5400, 7200, 14 * 3600, 3464, -17762, c.R.Intn(2*86399+1) - 86399} {
+			for _, dl := range []int64{-1, 0, 1, 1800, 43200, 86399} {
+				c.Op(fmt.Sprintf("date.fromtime %d %d %d", base+dl-int64(off), []int64{0, 999999999}[dl&1], off))
+				c.Op(fmt.Sprintf("date.fromtime %d 0 %d", base+dl, off))
+			}
+		}
+	}
 	// zones are not all multiples of 30 minutes: any number of seconds in (-86400, 86400) is a legal offset (the
 	// local-mean-time zones of the tz database have offsets like +0:57:44); instants within a minute of the local midnight
 	oddOffsets := c07OddOffsets(c)
@@ -702,8 +748,14 @@ func propC07(c *Ctx) {
 	offs = append(offs, oddOffsets...)
 	for _, off := range offs {
 		z := time.FixedZone("z", off)
-		for _, base := range []time.Time{time.Date(2024, 2, 29, 0, 0, 0, 0, time.UTC), time.Date(2023, 12, 31, 23, 59, 59, 999, time.UTC), time.Date(1, 1, 1, 0, 0, 1, 0, time.UTC), time.Date(2000, 3, 1, 0, 0, 0, 0, z),
-			time.Date(2024, 3, 1, 0, 0, 20, 0, z), time.Date(1900, 2, 28, 23, 59, 40, 0, z)} {
+		bases := []time.Time{time.Date(2024, 2, 29, 0, 0, 0, 0, time.UTC), time.Date(2023, 12, 31, 23, 59, 59, 999, time.UTC), time.Date(1, 1, 1, 0, 0, 1, 0, time.UTC), time.Date(2000, 3, 1, 0, 0, 0, 0, z),
+			time.Date(2024, 3, 1, 0, 0, 20, 0, z), time.Date(1900, 2, 28, 23, 59, 40, 0, z)}
+		// "shown in that time's own location" for every year a Date can hold, not only 0001-2100: local and UTC midnights of far,
+		// five-digit, zero and negative years (a conversion that falls back to UTC outside 0000-9999 shows only there)
+		for _, fy := range c07FarZoneYears {
+			bases = append(bases, time.Date(fy[0], time.Month(fy[1]), fy[2], 0, 0, 0, 0, z), time.Date(fy[0], time.Month(fy[1]), fy[2], 0, 0, 0, 0, time.UTC))
+		}
+		for _, base := range bases {
 			for _, dl := range []time.Duration{-time.Second, 0, time.Second, 12 * time.Hour, -61 * time.Second, 59 * time.Second} {
 				t := base.Add(dl).In(z)
 				if t.IsZero() {
@@ -736,6 +788,9 @@ func propC07(c *Ctx) {
 		}
 	}
 }
+
+// c07FarZoneYears: days outside years 0001-2100 on which the zone conversions are judged (year ends, leap days, mid-year).
+var c07FarZoneYears = [][3]int{{10000, 1, 1}, {9999, 12, 31}, {12345, 6, 15}, {65536, 2, 29}, {999999999, 12, 31}, {0, 1, 1}, {0, 2, 29}, {-1, 12, 31}, {-5, 3, 1}, {-400, 2, 29}, {-999999999, 1, 1}}
 
 // c07FarReceiver: the receiver years of the far Add / AddDuration deltas.
 var c07FarReceiver = map[int]bool{0: true, 4: true, 1900: true, 2000: true, 2024: true, 9999: true}
@@ -853,6 +908,31 @@ func dateRecognise(s string) (bool, int, int, int) {
 	return true, y, m, d
 }
 
+// dateAltNotations writes the day (y, m, d) in notations other than the two of the grammar.
+func dateAltNotations(y, m, d int) []string {
+	ys, ms, ds := digits(y, 4), digits(m, 2), digits(d, 2)
+	ext, bas := ys+"-"+ms+"-"+ds, ys+ms+ds
+	mon := []string{"Jan", "Feb", "Mar", "Apr", "May", "Jun", "Jul", "Aug", "Sep", "Oct", "Nov", "Dec"}[m-1]
+	yday := int(ordinal(y, m, d) - ordinal(y, 1, 1) + 1)
+	var out []string
+	for _, base := range []string{ext, bas} {
+		for _, tod := range []string{"T00:00:00Z", "T00:00:00", "T00:00", " 00:00:00", " 00:00", "T12:34:56+02:00", "T23:59:59.999Z", "T00:00:00.000000-07:00", " 00:00:00 +0000 UTC", "T000000Z", "T00", "Z", "+00:00",
+			" 12:00 AM", "T24:00:00", "t00:00:00z", "_00:00:00", "T00:00:00+0000"} {
+			out = append(out, base+tod)
+		}
+		out = append(out, "D:"+base, "date:"+base, base+" AD", base+" CE", "AD "+base, base+"/P1D", base+"/"+base, base+".", "@"+base)
+	}
+	for _, sep := range []string{"-", ".", "/", " ", ""} {
+		out = append(out, ds+sep+ms+sep+ys, ms+sep+ds+sep+ys, ys+sep+ds+sep+ms, ds+sep+ms+sep+ys[len(ys)-2:], ys[len(ys)-2:]+sep+ms+sep+ds,
+			fmt.Sprint(y)+sep+fmt.Sprint(m)+sep+fmt.Sprint(d), ys+sep+mon+sep+ds, ds+sep+mon+sep+ys, ys+sep+ms, ys+sep+digits(yday, 3), ys+sep+"W"+digits((yday+6)/7, 2)+sep+"1")
+	}
+	// … and in its OTHER encoding: the seven bytes of MarshalBinary, raw, hex-spelled and followed by a newline
+	bin := []byte{1, byte(uint32(y) >> 24), byte(uint32(y) >> 16), byte(uint32(y) >> 8), byte(uint32(y)), byte(m), byte(d)}
+	out = append(out, string(bin), hx(bin), string(bin)+"\n", string(bin[1:]), "\x01"+bas)
+	out = append(out, mon+" "+fmt.Sprint(d)+", "+ys, fmt.Sprint(d)+" "+mon+" "+ys, "Mon, "+ds+" "+mon+" "+ys, ys, ys+ms, "--"+ms+"-"+ds, "+"+digits(y, 6)+"-"+ms+"-"+ds, digits(y, 4)+"年"+ms+"月"+ds+"日")
+	return out
+}
+
 func isBasic(s string) bool { return !strings.Contains(s, "-") }
 
 func checkDateParse(c *Ctx, s string, ml int, rule date.Rule) {
@@ -877,6 +957,9 @@ func checkDateParse(c *Ctx, s string, ml int, rule date.Rule) {
 			c.Fail("C09.reject", in, "%q rejected: %v", s, err)
 		} else if py, pm, pd := p.Date(); py != y || int(pm) != m || pd != d {
 			c.Fail("C09.components", in, "%q -> %v", s, p)
+		} else if p.Year() != y || int(p.Month()) != m || p.Day() != d {
+			// "has exactly the written year, month and day" whichever accessor reads them: the single accessors as well as the triple
+			c.Fail("C09.components", in, "%q -> Date() = %d %d %d but Year() Month() Day() = %d %d %d", s, py, int(pm), pd, p.Year(), int(p.Month()), p.Day())
 		}
 	default:
 		if err == nil {
@@ -947,6 +1030,72 @@ func propC09(c *Ctx) {
 			}
 		}
 	}
+	// "separators both present or both absent" for EVERY year width: the two half-separated layouts of long years (the shortest,
+	// 12345-0101, has ten bytes and so fits the shipped limit), under the limits 0 / 10 / 15 and both rules, and through the model
+	for _, y := range longYears(c) {
+		for _, md := range [][2]int{{1, 1}, {2, 28}, {2, 29}, {12, 31}} {
+			for _, in := range []string{digits(y, 4) + "-" + digits(md[0], 2) + digits(md[1], 2), digits(y, 4) + digits(md[0], 2) + "-" + digits(md[1], 2)} {
+				for _, ml := range []int{0, 10, 15} {
+					checkDateParse(c, in, ml, 0)
+					checkDateParse(c, in, ml, date.RuleDisableBasic)
+				}
+				if md[0] != 2 {
+					c.Op(fmt.Sprintf("date.parse %d %d %s", []int{0, 10, 15}[(y+md[0])%3], y&1, hx([]byte(in))))
+				}
+			}
+		}
+	}
+	c.NT(int64(len(longYears(c))) * 8)
+	// consistent edits at BOTH separator positions (every single-position edit is made below): both separators replaced by the same
+	// byte — all 255 others —, and every pair out of the separators people write (slash, dot, colon, blank, underscore, en dash, minus
+	// sign, nothing, the hyphen itself). The hyphen is the only separator of the grammar.
+	for _, ymd := range [][3]int{{2024, 2, 29}, {0, 1, 1}, {9999, 12, 31}, {1900, 2, 28}, {12345, 1, 1}, {123456789, 12, 31}} {
+		ys, ms, ds := digits(ymd[0], 4), digits(ymd[1], 2), digits(ymd[2], 2)
+		for b := 0; b < 256; b++ {
+			if b == '-' {
+				continue
+			}
+			sep := string([]byte{byte(b)})
+			x := ys + sep + ms + sep + ds
+			for _, ml := range []int{0, 10, 15} {
+				checkDateParse(c, x, ml, 0)
+			}
+			checkDateParse(c, x, 15, date.RuleDisableBasic)
+			if b < '0' || b > '9' && b < 'A' || b == '_' || b == 0x7f || b == 0xad || b == 0xff {
+				c.Op(fmt.Sprintf("date.parse %d %d %s", []int{0, 15}[b&1], b>>1&1, hx([]byte(x))))
+			}
+		}
+		seps := []string{"-", "", "/", ".", ":", " ", "_", "\u2013", "\u2212", "\u00ad"}
+		for _, s1 := range seps {
+			for _, s2 := range seps {
+				if s1 == s2 && (s1 == "-" || s1 == "") {
+					continue
+				}
+				x := ys + s1 + ms + s2 + ds
+				for _, ml := range []int{0, 15, 20} {
+					checkDateParse(c, x, ml, 0)
+					checkDateParse(c, x, ml, date.RuleDisableBasic)
+				}
+				c.Op(fmt.Sprintf("date.parse %d %d %s", []int{0, 20}[len(x)&1], len(s1)&1, hx([]byte(x))))
+			}
+		}
+	}
+	c.NT(6 * (255 + 98))
+	// the same day in OTHER well-known notations (a "helpful" reader accepts them; the grammar does not): timestamps with a complete
+	// time of day and zone, reversed and US orders, month names, ordinal and week dates, two-digit years, unpadded components, eras.
+	// The recogniser decides (a few of them may be valid basic texts of another date); limits 0, exactly the length, and 40.
+	nalt := 0
+	for _, ymd := range [][3]int{{2024, 2, 29}, {1, 1, 1}, {9999, 12, 31}, {2023, 10, 5}, {12345, 1, 1}, {c.R.Intn(10000), 1 + c.R.Intn(12), 1 + c.R.Intn(28)}} {
+		for _, x := range dateAltNotations(ymd[0], ymd[1], ymd[2]) {
+			for _, ml := range []int{0, len(x), 40} {
+				checkDateParse(c, x, ml, 0)
+				checkDateParse(c, x, ml, date.RuleDisableBasic)
+			}
+			c.Op(fmt.Sprintf("date.parse %d %d %s", []int{0, 40}[nalt&1], nalt>>1&1, hx([]byte(x))))
+			nalt++
+		}
+	}
+	c.NT(int64(nalt))
 	// every string over the alphabet up to a length
 	alpha := "01239-"
 	maxLen := 8
@@ -974,7 +1123,8 @@ func propC09(c *Ctx) {
 	rec(nil)
 	c.NT(int64(cnt))
 	// longer strings: valid shapes with the alphabet in the year part handled by mutation below
-	valids := []string{"2024-02-29", "20240229", "0000-01-01", "99991231", "2023-12-31", "1900-02-28", "2000-02-29"}
+	// (two long-year texts as well: every single-position edit is made on five-digit years too, not only on four-digit ones)
+	valids := []string{"2024-02-29", "20240229", "0000-01-01", "99991231", "2023-12-31", "1900-02-28", "2000-02-29", "12345-01-01", "100000229"}
 	for _, v := range valids {
 		for pos := 0; pos < len(v); pos++ {
 			for b := 0; b < 256; b++ {
@@ -1257,6 +1407,17 @@ func propC11(c *Ctx) {
 		}
 		for n := 1; n < 7; n++ {
 			probe(good7[:n], date.ErrInvalidLength, "C11.length")
+		}
+		// the OTHER encoding of the same date — its text, bare, quoted, as a timestamp — is not a binary encoding: the first byte is not
+		// the version (what a confused caller or a column of mixed content really hands over)
+		if ymd[0] >= 0 {
+			ext := digits(ymd[0], 4) + "-" + digits(ymd[1], 2) + "-" + digits(ymd[2], 2)
+			bas := digits(ymd[0], 4) + digits(ymd[1], 2) + digits(ymd[2], 2)
+			for _, txt := range []string{ext, bas, `"` + ext + `"`, ext + "T00:00:00Z", ext + "\n", bas[:7], "v1:" + ext} {
+				probe([]byte(txt), date.ErrUnsupportedVersion, "C11.version")
+			}
+			probe([]byte("\x01"+bas), date.ErrInvalidLength, "C11.length")  // the version byte and then the text
+			probe([]byte("\x01"+ext[:6]), date.ErrInvalidDate, "C11.bytes") // seven bytes, version 1: the month and day bytes are ASCII characters
 		}
 		for _, v := range []byte{0, 2, 3, 0x10, 0x31, 0x81, 0xff} {
 			in := append([]byte{}, good7...)
